@@ -234,7 +234,7 @@ class ApplyMixin:
             cont = self.ev(target.value, st, fr)
             idx = self.ev(target.slice, st, fr)
             if cont.pt == "dict":
-                new = SV(v.dset(cont.t, self.box(idx), self.box(val)), "dict")
+                new = SV(v.dset(cont.t, self.box(idx), self.box(val)), "dict", py=cont.py if cont.py and cont.py[0] == "defaultdict" else None)
             elif cont.pt == "list":
                 f = v.fn("supd", v.Val, z3.IntSort(), v.Val, v.Val)
                 self.ensure_upd_axioms()
